@@ -5,11 +5,12 @@ PROPERTY = "C01"
 STATEFUL = True
 READY = True
 THEOREMS = ["C01.run_sound", "C01.table_wf", "C01.factorize_ok", "C01.factorize_ordered", "C01.parse_valid",
-            "C01.tokens_no_end", "C01.parse_from_valid", "C01.parse_valid_templates"]
+            "C01.tokens_no_end", "C01.parse_from_valid", "C01.parse_valid_templates", "C01.parse_from_valid_templates",
+            "C01.seq_flatten_yield"]
 RULE = ("one case = one generated grammar (generators: unbiased / mostly non-left-recursive / shaped incl. 3-4 same-prefix "
         "alternatives in every order / LL(1)-ish / hidden recursion / DFS shapes / late FIRST-FOLLOW chains / malformed incl. "
         "reserved names at any position of any alternative, also behind None / AnyTokenExcept alternatives and with a real "
-        "helper of that name in the factorised dictionary; 1-6 non-terminals with permuted names; 20 token configurations: synonyms, "
+        "helper of that name in the factorised dictionary; 1-6 non-terminals with permuted names; 24 token configurations: synonyms, "
         "keywords, default / explicit / empty skip sets incl. a SPACE-named terminal, COMMENT, skip sets containing a keyword target "
         "or the base name of keyworded lexemes (directly or through a synonym); span tokens (span_matchers: a multi-line text block that is a terminal, reported under a synonym, "
         "and skipped multi-line comments, several spans per text), synonyms that map a name to itself or chain through another "
@@ -31,17 +32,26 @@ RULE = ("one case = one generated grammar (generators: unbiased / mostly non-lef
         "names, one non-terminal occurring 2-3 times in one production, keys that derive nothing ([] or only "
         "AnyTokenExcept(every token)) anywhere in an alternative, "
         "then call sequences parse(text, start_symbol_name=X) followed by a plain parse(text), then is_ambiguous() "
-        "again; non-trivial = at least one returned tree and at least one ParsingError in the case; distinct by protocol text")
+        "again; non-trivial = at least one returned tree and at least one ParsingError in the case; distinct by protocol text; round 8 dimensions: 4 token configurations whose patterns have CONTEXT assertions (`^`, look-behind, \\b; every lexeme rendered at line starts, behind blanks and glued to its neighbour; str and list-of-lines input), ProdSequence templates with an AnyTokenExcept member at the first / a middle / the last position of the argument list (tag seqax), ListProds without delimiter with and without brackets, item nullable or not (tag nodelim), cycles of 1-3 symbols none of which has a base case - token-tailed or epsilon-only, referred to or not, start symbol inside or outside - and their non-recursive twins (generator nobase), long inputs also for containers (sequence, sequence with AnyTokenExcept, 3 list forms, map) of 150 / 990..1100 / 2000 / 5000 items, each long text parsed with do_cleanup=False AND with the default do_cleanup=True when the derivation tree is at most 250 levels deep (tag cleanup:long)")
 TRUSTED = ["re (lexemes are found by the harness with the tokenizer's own pattern)"]
 ASSUMPTIONS = ["hypotheses of C01.parse_valid: the start symbol is one of the keys of `productions` (the constructor accepts "
                "start_symbol_name='E__S00', a helper key of the factorised dictionary; the root of the tree is then a helper "
                "symbol - kernel-evaluated example in Props/C01.lean; such start symbols are not generated); no lexeme is named "
                "$END$ (C01.tokens_no_end: implied by `$END$` not being a group / synonym target / keyword target)",
                "Python names are decoded into structured symbols (base, helper path) by the model's parseSym (lemma LL.name_parseSym: decoding and printing a name is the identity)",
-               "the productions generated by ProdSequence / ListProds (with delimiter) / MapProds enter the model as data (the repo's "
-               "template classes expand them; their correctness is C05's subject); C01.parse_valid_templates needs that no generated "
-               "name has the shape X__Snn (decidable PlainNames); ListProds without delimiter is not generated (its extra "
-               "verify_grammar step is modelled in C05 only)",
+               "the productions generated by the templates enter the model as data: ProdSequence(m1..mn) is expanded by the harness's "
+               "own reference (S -> (S__ELEMENT, S) | (), S__ELEMENT -> (m1,) | .. | (mn,), an AnyTokenExcept member at ANY position "
+               "replaced in place by its one-token alternatives), ListProds (with and without delimiter / brackets) and MapProds by "
+               "the repo's template classes (their correctness is C05's subject); C01.parse_valid_templates needs that no generated "
+               "name has the shape X__Snn (decidable PlainNames); the extra ListProds.verify_grammar stage (a list without "
+               "delimiter whose item is nullable -> GrammarError) IS modelled: the driver executes LL.constructGN nonull T, the item "
+               "symbols of the delimiter-less lists arrive as the 4th part of the `T=` field (data from the harness)",
+               "ProdSequence nodes: the real parse returns them flattened (value = list of members), the model returns the chain "
+               "S -> S__ELEMENT S | () and the driver prints it flattened; C01.seq_flatten_yield (flattening succeeds at every "
+               "sequence node, keeps root and yield, printed text = rendering of the flattened tree) assumes SeqOK: the symbols the "
+               "harness names as sequence symbols (3rd part of `T=`) have exactly the productions S -> E S | (), E -> one symbol each "
+               "(decidable; kernel-evaluated on an example in Props/C01.lean, not re-checked by the driver per case) and trees "
+               "of fewer than 10^7 nodes",
                "an alternative given as None is the empty alternative and AnyTokenExcept(*names) is the list of its one-token "
                "alternatives when the model sees them (protocol `!` / field AX=); the harness expands AnyTokenExcept itself: the "
                "SET of tokens is the reference's (token groups - synonym sources + synonym and keyword targets), only the order "
@@ -50,6 +60,12 @@ ASSUMPTIONS = ["hypotheses of C01.parse_valid: the start symbol is one of the ke
                "LL.handle_keeps_state); `debug` and `src_name` do not enter the model's result; "
                "terminal names containing `__` are not generated; the names listed in AnyTokenExcept are tokens of the parser's "
                "tokenizer (others are a GrammarError of the expansion, which the model does not see)",
+               "token patterns with context assertions (`^`, look-behind, \\b: variants ctxbol / ctxbehind / ctxword / ctxdir): "
+               "'the tokens of the input' are what `pattern.match(line, pos)` finds from left to right on the WHOLE line - the oracle's "
+               "expected tokens come from hand-written naming rules (ll_common.CTX_RULES), the lexemes handed to the model from `re`",
+               "default parse(text) (do_cleanup=True) is called on the long inputs too - only 'a result is returned' is compared - but "
+               "only when the derivation tree of the user's grammar (a container = one node) is at most 250 levels deep: the clean-up "
+               "recurses per tree level, deeper trees are CPython's recursion limit (a resource limit, not judged)",
                "span tokens: the value the reference gives to a span token is the text between opener and closer, its line pieces "
                "joined by '\\n'; generated bodies have no empty line piece and no piece ending in a blank (the tokenizer drops a "
                "line piece that is empty - `<\\n\\nx>` has value 'x' - which the statement does not settle); no keywords "
@@ -87,7 +103,7 @@ def oracle(case, replies):
 
 
 def gen_cases(rng, tier):
-    yield from ll.gen_long_cases(rng, (150, 700) if tier == "quick" else (150, 500, 2000))
+    yield from ll.gen_long_cases(rng, (150, 700) if tier == "quick" else (150, 500, 2000), big=None if tier == "quick" else 5000)
     if tier == "quick":
         yield from ll.gen_ll_cases(rng, 1100, 4, malformed_share=0.07, tmpl_share=0.09)
     else:
@@ -114,7 +130,15 @@ LEVEL_TEXT = ("Kernel-checked for ALL grammars, token lists and both smart_facto
               "the backtracking loop C01.run_sound + table well-formedness C01.table_wf + correctness of common-prefix "
               "factorisation incl. the smart undo C01.factorize_ok, which also keeps the order = priority of the alternatives, "
               "C01.factorize_ordered); the same for parse(text, start_symbol_name=X) "
-              "(C01.parse_from_valid); that a parser object has no memory between calls and does not depend on other parser objects is a fact "
+              "(C01.parse_from_valid); for dictionaries with ProdSequence / ListProds / MapProds keys the same is proved about the "
+              "constructor the driver executes (LL.constructGN = constructG + the templates' verify_grammar stage) w.r.t. the EXPANDED "
+              "dictionary (C01.parse_valid_templates, with an explicit start symbol C01.parse_from_valid_templates; the expansion itself is data, C05's subject); that theorem is about the "
+              "UN-flattened tree, while the real code returns ProdSequence nodes flattened in-parse: C01.seq_flatten_yield proves that "
+              "the flattening the driver performs before printing (seqChain) succeeds at every sequence node of a derivation tree "
+              "(never the `?` fallback), keeps the root and the yield - every leaf with its value, in order - and that the printed "
+              "line is the plain rendering of that flattened tree (hypothesis SeqOK on the harness-supplied list of sequence "
+              "symbols, see ASSUMPTIONS); that the real flattened node equals it is compared by the correspondence; "
+              "that a parser object has no memory between calls and does not depend on other parser objects is a fact "
               "about the MODEL only (lemmas LL.handle_keeps_state, LL.handle_slots_prefix - not pinned as property theorems); for the "
               "real object it is tested by the call sequences and interleaved parsers of the correspondence. model = code is established by a differential run: "
               "constructor outcome, is_ambiguous() and every raw tree / error class compared on generated grammars x all short "
